@@ -619,7 +619,7 @@ def timed_model_line(cid, sc, q):
         sc.buf if q.kind == "raw" else 65535, arr, sg, eof, 1 if sc.rd else 0, "-" if not sc.edns else "%d:%d" % sc.edns, q.kind)
 
 
-def timed_model_vs_oracle(sc, q, model):
+def timed_model_vs_oracle(sc, q, model, wire_only=False):
     """None if the extracted timed machine and the code-blind expectation agree on this scenario"""
     import re
     m0 = re.match(r"S=([0-9,]*) W=(\S+) TW=(\S+) (EV=.*)$", model)
@@ -644,6 +644,8 @@ def timed_model_vs_oracle(sc, q, model):
         return "datagram on the wire: model %s, RFC layout %s" % (m0.group(2)[:120], want_q.hex()[:120])
     if m0.group(3) != "-" and m0.group(3) != (len(want_q).to_bytes(2, "big") + want_q).hex():
         return "TCP bytes written: model %s, RFC layout %s" % (m0.group(3)[:120], (len(want_q).to_bytes(2, "big") + want_q).hex()[:120])
+    if wire_only:
+        return None          # netwire / C11: refusals and the bytes on the wire only; the rest is C13-C15's business
     if (m0.group(3) != "-") != bool(e["tcp"]):
         return "TCP exchange: model wrote %s, expectation %d connection(s)" % (m0.group(3)[:20], e["tcp"])
     want_s = [i * sc.qt if sc.qt is not None else 0 for i in range(e["sends"] or 0)]
